@@ -9,9 +9,9 @@ KINDS = ["A", "AAAA", "PTR", "CNAME", "TXT", "SRV", "HINFO", "NSEC"]
 
 def plan(prop, tier, seed):
     if tier == "quick":
-        n_shards, rand_cases, over_cases, pads = 16, 220, 60, "sparse"
+        n_shards, rand_cases, over_cases, pads = 16, 1300, 350, "sparse"
     else:
-        n_shards, rand_cases, over_cases, pads = 64, 4500, 1200, "full"
+        n_shards, rand_cases, over_cases, pads = 64, 20000, 5000, "full"
     return [{"prop": prop, "seed": seed, "shard": i, "n_shards": n_shards, "rand": rand_cases, "over": over_cases, "pads": pads, "tier": tier}
             for i in range(n_shards)]
 
